@@ -49,6 +49,11 @@ type tstWriter struct {
 var errWriter = errors.New("writer failed")
 
 func (w *tstWriter) Write(p []byte) (int, error) {
+	if w.mode == 4 {
+		// a log sink that stamps each entry: it formats with the library BEFORE it consumes p
+		_ = redact.Sprintf("stamp %d %s %v", len(p), "ZZZZZZZZZZZZZZZZZZZZZZZZ", redact.Safe("YYYYYYYYYYYYYYYY"))
+		_ = redact.Sprint("more", 12345678, "XXXXXXXXXXXXXXXXXXXXXXXXXXXXXXXXXXXXXXXXXXXXXXXXXXXXXXXXXX")
+	}
 	w.writes = append(w.writes, append([]byte(nil), p...))
 	switch w.mode {
 	case 1:
@@ -91,7 +96,7 @@ func c16Routes(f string, isF bool, args []interface{}, seen func([]byte)) string
 		seen(ref)
 	}
 	// F variants: one Write with the whole text, (n, err) passed through
-	for mode := 0; mode <= 3; mode++ {
+	for mode := 0; mode <= 4; mode++ {
 		w := &tstWriter{mode: mode}
 		var n int
 		var err error
